@@ -21,6 +21,8 @@
 -/
 import IgrisModel.C19.Lemmas
 import IgrisModel.C19.Lemmas2
+import IgrisModel.C19.LemmasPtr
+import IgrisModel.C19.Lemmas3
 namespace Igris.C19
 open Igris.Proto
 
@@ -762,5 +764,358 @@ theorem rshellExecuteV_spec (a0 : Str) (rest : List Str) (table : List Str) (dro
 /-- `argc = 0` is outside the routine's contract: it reads `argv[0]` -/
 theorem rshellExecuteV_argc0_witness (table : List Str) (d : Nat) :
     rshellExecuteV [] table d = none := rfl
+
+
+/-! # Extension (round 4): "stays in bounds" as a theorem
+
+Pointer-level models: Ptr.lean (explicit indices into a memory of exactly the
+given extent; `PR.oob i` = an access at index `i` outside it, `PR.fuel` = a
+loop did not end; loop tests in the order the code evaluates them).  For each
+routine: `…P_safe` — for EVERY input the pointer-level model yields `PR.ok` of
+the specified value (no access outside the extent, every loop ends);
+`…P_refines` — it computes what the list-level model of Model.lean computes
+(so every value theorem above is a theorem about it); `…OrigP_overread_witness`
+— the body before the repair yields `PR.oob` on the inputs recorded in
+corpus/C19/fixed-defects.ops.  The driver runs the `…P` functions. -/
+
+/-! ## split -/
+
+/-- `split(buf, delim)`, pointer level: never an access outside `[data, data+size)`,
+both loops end, and the tokens are the maximal runs -/
+theorem splitCharP_safe (buf : Str) (delim : Byte) :
+    splitCharP buf delim = .ok (runs (· == delim) buf) :=
+  splitCharLoopP_eq buf delim _ 0 [] _ (by omega) (by rw [List.drop_zero]; exact splitChar_eq_runs buf delim)
+
+theorem splitCharP_refines (buf : Str) (delim : Byte) :
+    (splitCharP buf delim).toOption = splitChar buf delim := by
+  rw [splitCharP_safe, splitChar_eq_runs]; rfl
+
+/-- 8b4a8e9: `while (*ptr == delim) ptr++;` read `data[size]` — index 0 of the
+empty buffer, index 1 of "a" (`splitc - 20`, `splitc 61 20`) -/
+theorem splitCharOrigP_overread_witness :
+    splitCharOrigP [] SP = .oob 0 ∧ splitCharOrigP [0x61#8] SP = .oob 1 := by decide
+
+/-- `split(buf, delims)`, pointer level (exact behaviour: NUL is a delimiter too) -/
+theorem splitDelimsP_safe (buf delims : Str) :
+    splitDelimsP buf delims = .ok (runs (fun c => c == NUL || delims.contains c) buf) := by
+  have h := splitDelims_eq_runs_with_nul buf delims
+  unfold splitDelims at h
+  unfold splitDelimsP
+  by_cases h0 : buf.length = 0
+  · rw [if_pos h0] at h; rw [if_pos h0, ← Option.some.inj h]; rfl
+  · rw [if_neg h0] at h; rw [if_neg h0]
+    exact splitDelimsLoopP_eq buf delims _ 0 [] _ (by omega) (by rw [List.drop_zero]; exact h)
+
+theorem splitDelimsP_refines (buf delims : Str) :
+    (splitDelimsP buf delims).toOption = splitDelims buf delims := by
+  rw [splitDelimsP_safe, splitDelims_eq_runs_with_nul]; rfl
+
+/-- 76a8f9d: `while (strchr(delims, *ptr) != NULL && ptr != end)` read `data[size]`
+after a trailing delimiter (`splitd 6120 202f`: index 2 of a 2-byte buffer) -/
+theorem splitDelimsOrigP_overread_witness :
+    splitDelimsOrigP [0x61#8, SP] [SP, SLASH] = .oob 2 := by decide
+
+/-! ## split_cmdargs -/
+
+theorem splitCmdargsP_safe (buf : Str) : splitCmdargsP buf = .ok (cmdargsSpec buf) := by
+  have h := splitCmdargs_eq buf
+  unfold splitCmdargs at h
+  unfold splitCmdargsP
+  by_cases h0 : buf.length = 0
+  · rw [if_pos h0] at h; rw [if_pos h0, ← Option.some.inj h]; rfl
+  · rw [if_neg h0] at h; rw [if_neg h0]
+    exact cmdargsLoopP_eq buf _ 0 [] _ (by omega) (by rw [List.drop_zero]; exact h)
+
+theorem splitCmdargsP_refines (buf : Str) : (splitCmdargsP buf).toOption = splitCmdargs buf := by
+  rw [splitCmdargsP_safe, splitCmdargs_eq]; rfl
+
+/-- 16fd822: `while (*ptr == ' ' && ptr != end)` read `data[size]` after the last
+token / the closing quote (`cmdargs 61`, `cmdargs 226122`) -/
+theorem splitCmdargsOrigP_overread_witness :
+    splitCmdargsOrigP [0x61#8] = .oob 1 ∧ splitCmdargsOrigP [DQ, 0x61#8, DQ] = .oob 3 := by decide
+
+/-! ## trim -/
+
+/-- `trim(view)`, pointer level: `left` stays in `[0, size]`, `right` (which is
+decremented) in `[left, size-1]` — in particular never below 0 — and the
+result is the strip -/
+theorem trimP_safe (view : Str) : trimP view = .ok (strip isWsTrim view) := by
+  rw [trimP_eq, trim_eq_strip]
+
+theorem trimP_refines (view : Str) : trimP view = .ok (trim view) := trimP_eq view
+
+/-! ## igris_memmem, replace, replace_substrings -/
+
+/-- `igris_memmem(l, l_len, s, s_len)` on exactly sized blocks: every `cur[0]`,
+`cs[0]`, `memcmp` and `memchr` access is inside them; result = the list-level
+`memmem` (for which `memmem_some` / `memmem_none` hold) -/
+theorem memmemP_refines (l s : Str) : memmemP l 0 l.length s s.length = .ok (memmem l s) := by
+  have := memmemP_eq l s 0 (by omega)
+  simp only [Nat.sub_zero, List.drop_zero, Nat.add_zero] at this
+  rw [this]
+  cases memmem l s <;> rfl
+
+theorem memmemP_safe (l s : Str) (hs : s ≠ []) : memmemP l 0 l.length s s.length = .ok (firstOcc s l) := by
+  rw [memmemP_refines, memmem_eq_firstOcc l s hs]
+
+-- the hypothesis is satisfiable
+example : ([0x61#8] : Str) ≠ [] := by decide
+
+/-- the same for a call on the rest of a block from index `b` on (the calls of
+`replace` / `replace_substrings`): the returned pointer is `b + offset` -/
+theorem memmemP_rest (lm sm : Str) (b : Nat) (hb : b ≤ lm.length) :
+    memmemP lm b (lm.length - b) sm sm.length = .ok ((memmem (lm.drop b) sm).map (· + b)) :=
+  memmemP_eq lm sm b hb
+
+example : (0 : Nat) ≤ ([0x61#8] : Str).length := by decide
+
+/-- `igris::replace`, pointer level -/
+theorem replaceP_safe (input sub rep : Str) : replaceP input sub rep = .ok (subst sub rep input) :=
+  replaceP_eq input sub rep
+
+theorem replaceP_refines (input sub rep : Str) : (replaceP input sub rep).toOption = replace input sub rep := by
+  rw [replaceP_safe, replace_eq_subst]; rfl
+
+/-- `replace_substrings`, pointer level: the destination is a block of exactly
+`maxsize` bytes; no `memcpy` and not the final `*bufit = 0` touches
+`buffer[maxsize]` or beyond, no read leaves `input` / `rep`, for every `maxsize` -/
+theorem replaceSubstringsP_safe (maxsize : Nat) (input sub rep : Str) :
+    replaceSubstringsP maxsize input sub rep =
+      .ok (if maxsize = 0 then [] else (subst sub rep input).take (maxsize - 1) ++ [NUL]) :=
+  replaceSubstringsP_refines maxsize input sub rep _ (replaceSubstrings_eq maxsize input sub rep)
+
+theorem replaceSubstringsP_refines' (maxsize : Nat) (input sub rep : Str) :
+    (replaceSubstringsP maxsize input sub rep).toOption = replaceSubstrings maxsize input sub rep := by
+  rw [replaceSubstringsP_safe, replaceSubstrings_eq]; rfl
+
+/-- d4e621a: the unrepaired routine wrote behind the destination
+(`rsub 2 61616161 61 6262`, `rsub 0 6161 61 62`, `rsub 3 61616161 - 62`) -/
+theorem replaceSubstringsOrigP_overwrite_witness :
+    replaceSubstringsOrigP 2 [0x61#8, 0x61#8, 0x61#8, 0x61#8] [0x61#8] [0x62#8, 0x62#8] = .oob 2
+    ∧ replaceSubstringsOrigP 0 [0x61#8, 0x61#8] [0x61#8] [0x62#8] = .oob 0
+    ∧ replaceSubstringsOrigP 3 [0x61#8, 0x61#8, 0x61#8, 0x61#8] [] [0x62#8] = .oob 3 := by decide
+
+/-! ## join -/
+
+/-- `join(vec, delim)`, iterators as indices: `*iter` only for `iter < size` -/
+theorem joinP_safe (vec : List Str) (delim : Byte) : joinP vec delim = .ok (List.intercalate [delim] vec) := by
+  rw [joinP_eq, join_eq_intercalate]
+
+theorem joinP_refines (vec : List Str) (delim : Byte) : joinP vec delim = .ok (join vec delim) := joinP_eq vec delim
+
+/-- the iterator-range `join`: the counter `i` is a 32-bit `unsigned`, so the
+statement is for ranges of at most 2³² elements -/
+theorem joinFmtP_safe (vec : List Str) (delim pre post : Str) (h32 : vec.length ≤ 2 ^ 32) :
+    joinFmtP vec delim pre post = .ok (pre ++ List.intercalate delim vec ++ post) := by
+  rw [joinFmtP_eq' vec delim pre post h32, joinFmt_eq]
+
+example : ([[0x61#8]] : List Str).length ≤ 2 ^ 32 := by decide
+
+/-- 6236ab4: without the `tot == 0` guard `tot - 1` wraps and `*it` is read on
+the empty range (`joinf 2c 5b 5d`) -/
+theorem joinFmtOrigP_overread_witness : joinFmtOrigP [] [0x2c#8] [0x5b#8] [0x5d#8] = .oob 0 := by decide
+
+/-! ## argvc_internal_split_n -/
+
+/-- `argvc_internal_split_n`, pointer level, on exactly `maxlen` bytes and an
+`argv` array of exactly `argcmax` slots: no read or write at or behind
+`data[maxlen]`, no store at or behind `argv[argcmax]`; the result (argc,
+pointers as indices, the line after the call) is that of the list-level model,
+for which `argvSplitN_spec` / `argvSplitN_writes` hold -/
+theorem argvSplitNP_refines (data : Str) (argcmax : Nat) :
+    ∃ r, argvSplitNP data argcmax = .ok r ∧ argvSplitN data argcmax = some r := by
+  obtain ⟨r, h, _⟩ := argvSplitN_spec data argcmax
+  refine ⟨r, ?_, h⟩
+  have := argvSplitNLoopP_eq argcmax (data.length + 1) data 0 0 [] r (by omega) (by rw [List.drop_zero]; exact h)
+  unfold argvSplitNP
+  rw [this]
+  simp
+
+/-- eff14ad: the unrepaired tests read `data[maxlen]` (`argvn 61 2`, `argvn 6120 2`) -/
+theorem argvSplitNOrigP_overread_witness :
+    argvSplitNOrigP [0x61#8] 2 = .oob 1 ∧ argvSplitNOrigP [0x61#8, SP] 2 = .oob 2 := by decide
+
+/-! ## creader_readline -/
+
+/-- one call, pointer level: the forward scan tests `it != fini` before `*it`,
+the rewind never reads in front of `*token`; value = the list-level model
+(`creaderReadline_spec`); the new cursor stays inside `[strt, fini]` -/
+theorem creaderReadlineP_refines (mem : Str) (cursor : Nat) (h : cursor ≤ mem.length) :
+    ∃ r, creaderReadlineP mem cursor = .ok r ∧ creaderReadline mem cursor = some r ∧ r.2.2 ≤ mem.length := by
+  obtain ⟨r, h1, h2, h3⟩ := creaderReadlineP_eq mem cursor h
+  exact ⟨r, h2, h1, h3⟩
+
+example : (0 : Nat) ≤ ([0x61#8] : Str).length := by decide
+
+/-- the read loop over the pointer-level reader ends on every buffer, without a fault -/
+theorem creaderP_loop_ends (mem : Str) : ∃ l, creaderAllP mem (mem.length + 2) 0 = .ok (l, true) := by
+  obtain ⟨l, h⟩ := creader_loop_ends mem
+  exact ⟨l, creaderAllP_eq mem _ 0 (by omega) _ h⟩
+
+/-- 6d1ea18: `while (*it != '\n' && *it != '\0' && it != fini)` read `*fini` on an
+unterminated last line (`creader 6162`) -/
+theorem creaderReadlineOrigP_overread_witness :
+    creaderReadlineOrigP [0x61#8, 0x62#8] 0 = .oob 2 := by decide
+
+
+/-! ## argvc_internal_split_n and the terminator (finding C19-argvn-nul-not-terminator)
+
+argvc.h calls `_n` the "safe variant of argvc_internal_split that also checks
+the length"; its source has the test `*data == '\0'` → `return argc`.  That
+test is dead: `strchr(ws, 0)` is not NULL, so a NUL is skipped as white space
+and parsing goes on behind it.  `argvSplitN_spec` (above) is the EXACT
+behaviour for all inputs (NUL counts as a separator).
+
+  FULL STATEMENT (false on the tree, see `argvSplitN_nul_witness`):
+     ∀ data argcmax, ∃ r, argvSplitN data argcmax = some r ∧
+        r.argv.map (cstrAtN r.mem) = (runs isWsArgv (data.takeWhile (· != NUL))).take argcmax
+     — "tokenise on white space", the line ending at its terminator as in argvc_internal_split.
+  Proved part: buffers without NUL. -/
+theorem argvSplitN_ws_partial (data : Str) (argcmax : Nat) (hn : NUL ∉ data) :
+    ∃ r, argvSplitN data argcmax = some r
+      ∧ r.argc = r.argv.length ∧ r.argc ≤ argcmax
+      ∧ r.argv.map (cstrAtN r.mem) = (runs isWsArgv data).take argcmax
+      ∧ r.mem.length = data.length := by
+  obtain ⟨r, h1, h2, h3, h4, h5⟩ := argvSplitN_spec data argcmax
+  refine ⟨r, h1, h2, h3, ?_, h5⟩
+  rw [h4]
+  congr 1
+  apply runs_congr
+  intro c hc
+  have : c ≠ NUL := fun e => hn (e ▸ hc)
+  simp [this]
+
+/-- on a NUL-free text the two splitters produce the same argument strings
+(`_n` on the bare text, the terminated one on the text with its terminator) -/
+theorem argvSplitN_eq_terminated_partial (text junk : Str) (argcmax : Nat) (hn : NUL ∉ text) :
+    ∃ r rz, argvSplitN text argcmax = some r ∧ argvSplit (text ++ NUL :: junk) argcmax = some rz
+      ∧ some (r.argv.map (cstrAtN r.mem)) = argStrings rz.mem rz.argv := by
+  obtain ⟨r, h1, _, _, h4, _⟩ := argvSplitN_ws_partial text argcmax hn
+  obtain ⟨rz, g1, _, _, g4, _⟩ := argvSplit_spec text junk argcmax hn
+  exact ⟨r, rz, h1, g1, by rw [h4, g4]⟩
+
+example : NUL ∉ ([0x61#8, SP, 0x62#8] : Str) := by decide
+
+/-- "a\0j": `_n` delivers two arguments `a`, `j`; `argvc_internal_split` on the
+same terminated line delivers `a`; a pure white-space tokenisation would give
+the single run `a\0j` -/
+theorem argvSplitN_nul_witness :
+    (argvSplitN [0x61#8, NUL, 0x6a#8] 10).map (fun r => r.argv.map (cstrAtN r.mem)) = some [[0x61#8], [0x6a#8]]
+    ∧ (argvSplit [0x61#8, NUL, 0x6a#8, NUL] 10).bind (fun r => argStrings r.mem r.argv) = some [[0x61#8]]
+    ∧ (runs isWsArgv [0x61#8, NUL, 0x6a#8]).take 10 = [[0x61#8, NUL, 0x6a#8]] := by decide
+
+/-! ## path_remove_prefix against an independent definition
+
+`pathRemovePrefix_spec` (above) refines the cursor loop to the list recursion
+`removePrefixRef`, which has the shape of the loop.  Independent definition
+(Spec3.lean): `nodes p` — the first piece of the path as it stands (empty for
+an absolute path), then the real components of the rest — and `lcpLen`, the
+length of the longest common prefix of two lists.  -/
+
+/-- `path_iterate` walks the nodes: the first piece is `nodes p`'s head, the
+path `iterRef p` it returns (`pathIterate_spec`) has the remaining nodes -/
+theorem nodes_walk (p : Str) (hp : p ≠ []) : nodes p = headComp p :: nodes (iterRef p) :=
+  nodes_iterRef p hp
+
+example : ([0x61#8] : Str) ≠ [] := by decide
+
+/-- `path_remove_prefix(path, prefix)` for all NUL-terminated inputs: never
+NULL, no fault, the result is a suffix of `path`, and its nodes are the nodes
+of `path` without the longest common prefix of the two node lists
+(not only when `prefix` matches entirely: `/a/b` minus `/a/c` is `b`) -/
+theorem pathRemovePrefix_nodes (p jp q jq : Str) (hp : NUL ∉ p) (hq : NUL ∉ q) :
+    ∃ r, pathRemovePrefix (p ++ NUL :: jp) (q ++ NUL :: jq) = some (r ++ NUL :: jp)
+      ∧ r <:+ p ∧ nodes r = (nodes p).drop (lcpLen (nodes p) (nodes q)) :=
+  ⟨removePrefixSpec p q, pathRemovePrefix_spec p jp q jq hp hq, removePrefixSpec_suffix p q,
+    removePrefixRef_nodes _ p q (by omega)⟩
+
+example : NUL ∉ ([SLASH, 0x61#8] : Str) := by decide
+
+/-- nodes vs. components: they are the same list up to the first piece —
+`comps` is `nodes` without the non-real pieces (the empty root, a leading dot) -/
+theorem comps_eq_nodes_filter (p : Str) : comps p = (nodes p).filter isReal := comps_eq_filter_nodes p
+
+/-
+  FULL STATEMENT in terms of `comps`, the component list `path_next` enumerates
+  (false on the tree, see `pathRemovePrefix_dot_witness`):
+     comps (result) = (comps path).drop (lcpLen (comps path) (comps prefix))
+  Proved part: neither path begins with a single-dot piece, and both are
+  absolute or both relative.  Recorded finding: C19-path-remove-prefix-leading-dot.
+-/
+theorem pathRemovePrefix_comps_partial (p jp q jq : Str) (hp : NUL ∉ p) (hq : NUL ∉ q)
+    (hdp : headComp p ≠ [DOT]) (hdq : headComp q ≠ [DOT])
+    (hk : p.head? = some SLASH ↔ q.head? = some SLASH) :
+    ∃ r, pathRemovePrefix (p ++ NUL :: jp) (q ++ NUL :: jq) = some (r ++ NUL :: jp)
+      ∧ r <:+ p ∧ comps r = (comps p).drop (lcpLen (comps p) (comps q)) :=
+  ⟨removePrefixSpec p q, pathRemovePrefix_spec p jp q jq hp hq, removePrefixSpec_suffix p q,
+    removePrefix_comps_partial p q hdp hdq hk⟩
+
+-- the hypotheses are satisfiable: "/a/b" and "/a"
+example : headComp [SLASH, 0x61#8, SLASH, 0x62#8] ≠ [DOT] ∧ headComp [SLASH, 0x61#8] ≠ [DOT]
+    ∧ (([SLASH, 0x61#8, SLASH, 0x62#8] : Str).head? = some SLASH ↔ ([SLASH, 0x61#8] : Str).head? = some SLASH) := by
+  decide
+
+/-- "./a/b" minus "a": both paths have the first component `a`, `path_next`
+on "./a/b" points at `a`, but `path_remove_prefix` counts the leading dot as a
+node and returns the path unchanged (the `comps` reading gives `b`) -/
+theorem pathRemovePrefix_dot_witness :
+    pathRemovePrefix [DOT, SLASH, 0x61#8, SLASH, 0x62#8, NUL] [0x61#8, NUL]
+      = some [DOT, SLASH, 0x61#8, SLASH, 0x62#8, NUL]
+    ∧ comps [DOT, SLASH, 0x61#8, SLASH, 0x62#8] = [[0x61#8], [0x62#8]]
+    ∧ comps [0x61#8] = [[0x61#8]]
+    ∧ (comps [DOT, SLASH, 0x61#8, SLASH, 0x62#8]).drop
+        (lcpLen (comps [DOT, SLASH, 0x61#8, SLASH, 0x62#8]) (comps [0x61#8])) = [[0x62#8]] := by decide
+
+
+/-! ## path_next / path_iterate, pointer level
+
+The cursor models of Model.lean already fault on a read behind the allocation;
+here the same routines with explicit indices into the allocation. -/
+
+/-- `path_next(path, &len)`: every `*path`, `path[1]`, `*end` is inside the
+allocation (in fact not behind the terminator), both loops end, and the result
+is that of `pathNext_spec` -/
+theorem pathNextP_safe (p junk : Str) (hn : NUL ∉ p) :
+    pathNextP (p ++ NUL :: junk) 0
+      = .ok (match skipRef p with
+             | [] => none
+             | c :: r => some (p.length - (c :: r).length, (headComp (c :: r)).length)) := by
+  have h := pathNext_spec p junk hn
+  rw [pathNextP_eq (p ++ NUL :: junk) 0 (by omega) _ (by rw [List.drop_zero]; exact h)]
+  cases skipRef p <;> simp
+
+/-- `path_iterate(path)`: no access outside the allocation, and the returned
+pointer is the index at which `iterRef p` (and the terminator) begins -/
+theorem pathIterateP_safe (p junk : Str) (hn : NUL ∉ p) :
+    ∃ r, pathIterateP (p ++ NUL :: junk) 0 = .ok r ∧
+      (if p.isEmpty then none else some (iterRef p ++ NUL :: junk)) = r.map (fun q => (p ++ NUL :: junk).drop q) :=
+  pathIterateP_eq (p ++ NUL :: junk) 0 _ (by rw [List.drop_zero]; exact pathIterate_spec p junk hn)
+
+example : NUL ∉ ([DOT, SLASH, 0x61#8] : Str) := by decide
+
+/-- 03ab9aa: `path_is_single_dot` loaded `path[1]` first — index 1 of the
+1-byte allocation of `""` (`pnext -`) -/
+theorem isSingleDotOrigP_overread_witness :
+    isSingleDotOrigP [NUL] 0 = .oob 1 ∧ isSingleDotP [NUL] 0 = .ok false := by decide
+
+
+/-! ## argvc_internal_split, pointer level -/
+
+/-- `argvc_internal_split` with explicit indices into the allocation of the
+terminated line and an `argv` array of exactly `argcmax` slots: no read or
+write outside the allocation (none behind the terminator), no store at or
+behind `argv[argcmax]`, all loops end; the result is that of the cursor model,
+for which `argvSplit_spec` / `argvSplit_writes` hold -/
+theorem argvSplitP_refines (text junk : Str) (argcmax : Nat) (hn : NUL ∉ text) :
+    ∃ r, argvSplitP (text ++ NUL :: junk) argcmax = .ok r ∧ argvSplit (text ++ NUL :: junk) argcmax = some r := by
+  obtain ⟨r, h, _⟩ := argvSplit_spec text junk argcmax hn
+  refine ⟨r, ?_, h⟩
+  have := argvSplitLoopP_eq argcmax ((text ++ NUL :: junk).length + 1) (text ++ NUL :: junk) 0 0 [] r (by omega)
+    (by rw [List.drop_zero]; exact h)
+  unfold argvSplitP
+  rw [this]
+  simp
+
+example : NUL ∉ ([0x61#8, SP, 0x62#8] : Str) := by decide
 
 end Igris.C19
